@@ -564,13 +564,13 @@ func runDHCPOn(tb drv.TB, rec *drv.Rec, sub string, h dhcpHistory, or dhcpOracle
 		// ledger effects of the client's own message
 		switch op.K {
 		case "decline":
-			// A DECLINE is the client's own statement that it will not use the address (RFC 2131 3.1 step 5: it
-			// restarts configuration), whichever server the message names: the client no longer holds it.
-			if hold, ok := led.holding(ident); ok && hold == reqIP {
-				led.drop(ident)
-			}
-			if op.Srv != "other" && led.may[ident] == reqIP {
-				led.may[ident] = netip.Addr{}
+			if op.Srv != "other" {
+				if hold, ok := led.holding(ident); ok && hold == reqIP {
+					led.drop(ident)
+				}
+				if led.may[ident] == reqIP {
+					led.may[ident] = netip.Addr{}
+				}
 			}
 			if led.offered[ident].ok { // the server may or may not still honour the offer
 				led.offered[ident].ok, led.offered[ident].expired = false, true
